@@ -38,6 +38,9 @@ import (
 
 	"verifharness/hlib"
 
+	"github.com/oasisprotocol/curve25519-voi/primitives/x25519"
+
+	"github.com/oasisprotocol/oasis-core/go/common/cbor"
 	"github.com/oasisprotocol/oasis-core/go/common/crypto/signature"
 	"github.com/oasisprotocol/oasis-core/go/common/crypto/tuplehash"
 	"github.com/oasisprotocol/oasis-core/go/common/node"
@@ -73,6 +76,16 @@ type Case struct {
 	Def    string // "nil" (no DefaultPolicy) | "none" (DefaultPolicy without PCS part) | "pcs"
 	DefIAS bool
 	DefPol *pcs.QuotePolicy
+	// Signed attestations (TEEFeaturesSGX.SignedAttestations): attestation height, RAK signature,
+	// verification height, maximum attestation age of the constraints and of the consensus default.
+	SAtt      bool
+	SaHeight  uint64
+	NowHeight uint64
+	ScMaxAge  uint64
+	DefMaxAge uint64
+	SaSig     []byte
+	Rek       []byte // 32 bytes or empty (nil REK)
+	NodeID    []byte // 32 bytes
 	regWanted bool   // generator note
 	Unbound []string // generator note: documented-unbound fields this input deviates in (not serialised)
 	Sec     int64
@@ -134,9 +147,13 @@ func (c *Case) Line() string {
 		j, _ := json.Marshal(c.Pol)
 		pol = hx(j)
 	}
-	return fmt.Sprintf("case tag=%s quote=%s tcbnil=%s tb=%s tsg=%s qb=%s qsg=%s certs=%s pol=%s dbg=%s lax=%s bl=%s root=%s rak=%s allowed=%s reg=%s fspcs=%s def=%s defias=%s defpol=%s sec=%d nsec=%d",
+	l := fmt.Sprintf("case tag=%s quote=%s tcbnil=%s tb=%s tsg=%s qb=%s qsg=%s certs=%s pol=%s dbg=%s lax=%s bl=%s root=%s rak=%s allowed=%s reg=%s fspcs=%s def=%s defias=%s defpol=%s sec=%d nsec=%d",
 		c.Tag, hx(c.Quote), b01(c.TcbNil), hx(c.TcbBody), hx([]byte(c.TcbSig)), hx(c.QeBody), hx([]byte(c.QeSig)),
 		hx(c.Certs), pol, b01(c.Dbg), b01(c.Lax), hx(c.Bl), hx(c.Root), hx(c.AttRak), hx(c.AttOK), dash(c.Reg), b01(c.FsPCS), dash(c.Def), b01(c.DefIAS), polJSON(c.DefPol), c.Sec, c.Nsec)
+	if c.SAtt || len(c.NodeID) > 0 {
+		l += fmt.Sprintf(" satt=%s sah=%d nowh=%d scage=%d defage=%d sasig=%s rek=%s nid=%s", b01(c.SAtt), c.SaHeight, c.NowHeight, c.ScMaxAge, c.DefMaxAge, hx(c.SaSig), hx(c.Rek), hx(c.NodeID))
+	}
+	return l
 }
 
 func parseCaseLine(l string) (*Case, error) {
@@ -171,6 +188,14 @@ func parseCaseLine(l string) (*Case, error) {
 	}
 	c.Sec, _ = strconv.ParseInt(m["sec"], 10, 64)
 	c.Nsec, _ = strconv.ParseInt(m["nsec"], 10, 64)
+	if _, ok := m["satt"]; ok {
+		c.SAtt = m["satt"] == "1"
+		c.SaHeight, _ = strconv.ParseUint(m["sah"], 10, 64)
+		c.NowHeight, _ = strconv.ParseUint(m["nowh"], 10, 64)
+		c.ScMaxAge, _ = strconv.ParseUint(m["scage"], 10, 64)
+		c.DefMaxAge, _ = strconv.ParseUint(m["defage"], 10, 64)
+		c.SaSig, c.Rek, c.NodeID = unhx(m["sasig"]), unhx(m["rek"]), unhx(m["nid"])
+	}
 	return c, nil
 }
 
@@ -296,6 +321,8 @@ type implOut struct {
 	quote    *pcs.Quote
 	res      string // accept:... | reject:<stage>
 	errText  string
+	ood      string // Status of the TCBOutOfDateError returned by Quote.Verify ("" if none)
+	oodKind  int
 	panicked string
 }
 
@@ -334,6 +361,10 @@ func runImpl(c *Case) (o implOut) {
 	if err != nil {
 		o.errText = err.Error()
 		o.res = "reject:" + stageOf(o.errText)
+		var oe *pcs.TCBOutOfDateError
+		if errors.As(err, &oe) {
+			o.ood, o.oodKind = strconv.Itoa(int(oe.Status)), int(oe.Kind)
+		}
 		return
 	}
 	o.res = canonResult(v)
@@ -418,7 +449,13 @@ func runAttestation(c *Case) string {
 	sa := node.SGXAttestation{Quote: quote.Quote{PCS: &pcs.QuoteBundle{Quote: c.Quote, TCB: *c.bundle()}}}
 	sa.V = node.LatestSGXAttestationVersion
 	var nodeID signature.PublicKey
-	err := sa.Verify(cfg, c.ts(), 0, sc, rak, nil, nodeID)
+	copy(nodeID[:], c.NodeID)
+	cfg.SGX.SignedAttestations = c.SAtt
+	cfg.SGX.DefaultMaxAttestationAge = c.DefMaxAge
+	sc.MaxAttestationAge = c.ScMaxAge
+	sa.Height = c.SaHeight
+	copy(sa.Signature[:], c.SaSig)
+	err := sa.Verify(cfg, c.ts(), c.NowHeight, sc, rak, rekOf(c), nodeID)
 	switch {
 	case err == nil:
 		return "ok"
@@ -426,8 +463,42 @@ func runAttestation(c *Case) string {
 		return "identity"
 	case errors.Is(err, node.ErrRAKHashMismatch):
 		return "rak"
+	case errors.Is(err, node.ErrInvalidAttestationSignature):
+		return "sig"
+	case errors.Is(err, node.ErrAttestationFromFuture):
+		return "future"
+	case has(err.Error(), "TEE attestation not fresh enough"):
+		return "stale"
 	}
 	return "quote"
+}
+
+func rekOf(c *Case) *x25519.PublicKey {
+	if len(c.Rek) != 32 {
+		return nil
+	}
+	var k x25519.PublicKey
+	copy(k[:], c.Rek)
+	return &k
+}
+
+// attSigVerdict re-evaluates the RAK signature of a signed attestation over the report data the
+// signed report body determines (not over anything the verifier returned).
+func attSigVerdict(c *Case, kind string, body []byte) bool {
+	var rd []byte
+	switch {
+	case kind == "td" && len(body) == 584:
+		rd = body[520:584]
+	case kind == "sgx" && len(body) == 384:
+		rd = body[320:384]
+	default:
+		return false
+	}
+	var rak, nodeID signature.PublicKey
+	copy(rak[:], c.AttRak)
+	copy(nodeID[:], c.NodeID)
+	h := node.HashAttestation(rd, nodeID, c.SaHeight, rekOf(c))
+	return len(c.SaSig) == 64 && rak.Verify(node.AttestationSignatureContext, h, c.SaSig)
 }
 
 func has(s, sub string) bool { return strings.Contains(s, sub) }
@@ -825,6 +896,160 @@ func policyEncP(p *pcs.QuotePolicy, pre string) string {
 		p.MinTCBEvaluationDataNumber, strs(p.FMSPCWhitelist), strs(p.FMSPCBlacklist), tdx)
 }
 
+// levelStage maps an error of getTCBLevel / validateTCBLevel (called directly) to the model's stage.
+func levelStage(e string) string {
+	for _, x := range [][2]string{
+		{"TDX module TCB level not supported", "tdxModuleLevel"},
+		{"TDX module not supported", "tdxModuleUnsupported"},
+		{"missing TDX SVN components", "tdxNoSvn"},
+		{"missing TCB status", "levelNoStatus"},
+		{"TCB level not supported", "levelNone"},
+		{"QE TCB is not up to date", "tdxModuleStatus"},
+		{"platform TCB is not up to date", "levelStatus"},
+	} {
+		if has(e, x[0]) {
+			return x[1]
+		}
+	}
+	return "?"
+}
+
+// tdxSvnOf is the TEE TCB SVN array Quote.Verify hands to the TCB bundle (nil for SGX).
+func tdxSvnOf(p *pcs.VerifQuoteParts) (*[16]byte, bool) {
+	if p.TeeType != uint32(pcs.TeeTypeTDX) {
+		return nil, true
+	}
+	if p.BodyKind != "td" || len(p.BodyRaw) < 16 {
+		return nil, false
+	}
+	var a [16]byte
+	copy(a[:], p.BodyRaw[:16])
+	return &a, true
+}
+
+// levelFacts runs the real getTCBLevel, TCBLevel.matches and validateTCBLevel directly on the
+// decoded TCB info with the SVNs of the PCK certificate and of the TD report.
+func levelFacts(f *facts, p *pcs.VerifQuoteParts) (lv, mt, vt string, ok bool) {
+	if f.pckInfo == nil || !f.ti.ok {
+		return
+	}
+	tdx, good := tdxSvnOf(p)
+	if !good {
+		return
+	}
+	ti := f.ti.info
+	idx, st, err := ti.VerifGetTCBLevel(f.pckInfo.TCBCompSVN, tdx, f.pckInfo.PCESVN)
+	if err != nil {
+		lv = "err:" + levelStage(err.Error())
+	} else {
+		lv = fmt.Sprintf("%d:%d", idx, int(st))
+	}
+	mt = "-"
+	if len(ti.TCBLevels) > 0 {
+		b := make([]byte, len(ti.TCBLevels))
+		for i := range ti.TCBLevels {
+			b[i] = '0'
+			if ti.TCBLevels[i].VerifMatches(f.pckInfo.TCBCompSVN, tdx, f.pckInfo.PCESVN) {
+				b[i] = '1'
+			}
+		}
+		mt = string(b)
+	}
+	vt = "ok"
+	if err := ti.VerifValidateTCBLevel(f.pckInfo.TCBCompSVN, tdx, f.pckInfo.PCESVN); err != nil {
+		vt = levelStage(err.Error())
+	}
+	return lv, mt, vt, true
+}
+
+// directFacts runs the pure decision functions of tcb.go directly (no signatures involved) on the
+// decoded collateral of the case: QEIdentity.validate + QEIdentity.verify against the QE report
+// (`dq`), and TCBInfo.validate + validateFMSPC + validateTCBLevel against the PCK certificate's
+// FMSPC and SVNs (`dt`). They are compared with the same functions of the model on every case,
+// also when Quote.Verify itself stops at an earlier check (e.g. every bit-flipped collateral body
+// of a recorded vector, whose signature no longer verifies).
+func directFacts(c *Case, f *facts, p *pcs.VerifQuoteParts) (dq, dt string) {
+	pol := c.Pol
+	if pol == nil {
+		pol = &pcs.QuotePolicy{TCBValidityPeriod: 30, MinTCBEvaluationDataNumber: pcs.DefaultMinTCBEvaluationDataNumber}
+	}
+	tee := pcs.TeeType(p.TeeType)
+	if tee != pcs.TeeTypeSGX && tee != pcs.TeeTypeTDX {
+		return
+	}
+	first := func(e string, l [][2]string) string {
+		for _, x := range l {
+			if has(e, x[0]) {
+				return x[1]
+			}
+		}
+		return "?"
+	}
+	if f.qi.ok && len(p.QEReportRaw) == 384 {
+		qi := f.qi.info
+		dq = "ok"
+		if err := qi.VerifValidate(tee, c.ts(), pol); err != nil {
+			dq = first(err.Error(), qeStages)
+		} else if err := qi.VerifVerify(p.QEReportRaw); err != nil {
+			dq = first(err.Error(), qeStages)
+		}
+	}
+	if f.ti.ok && f.pckInfo != nil {
+		if tdx, good := tdxSvnOf(p); good {
+			ti := f.ti.info
+			dt = "ok"
+			if err := ti.VerifValidate(tee, c.ts(), pol); err != nil {
+				dt = first(err.Error(), tiStages)
+			} else if err := ti.VerifValidateFMSPC(f.pckInfo.FMSPC); err != nil {
+				dt = first(err.Error(), tiStages)
+			} else if err := ti.VerifValidateTCBLevel(f.pckInfo.TCBCompSVN, tdx, f.pckInfo.PCESVN); err != nil {
+				dt = first(err.Error(), tiStages)
+			}
+		}
+	}
+	return
+}
+
+var qeStages = [][2]string{
+	{"unexpected QE identity ID", "qeidId"},
+	{"unexpected QE identity version", "qeidVersion"},
+	{"invalid issue date", "qeidIssueParse"},
+	{"invalid next update date", "qeidNextParse"},
+	{"issue date in the future", "qeidFuture"},
+	{"QE identity expired", "qeidExpired"},
+	{"invalid QE evaluation data number", "qeidEvalNum"},
+	{"malformed QE MRSIGNER", "qeidMrSignerMalformed"},
+	{"invalid QE MRSIGNER", "qeidMrSigner"},
+	{"invalid QE ISVProdID", "qeidProdId"},
+	{"malformed miscselect", "qeidMiscMalformed"},
+	{"invalid QE miscselect", "qeidMisc"},
+	{"malformed attributes", "qeidAttrMalformed"},
+	{"invalid QE attributes", "qeidAttr"},
+	{"QE TCB level not supported", "qeidLevel"},
+	{"TCB is not up to date", "qeidStatus"},
+}
+
+var tiStages = [][2]string{
+	{"unexpected TCB info identifier", "tcbId"},
+	{"unexpected TCB info version", "tcbVersion"},
+	{"invalid issue date", "tcbIssueParse"},
+	{"invalid next update date", "tcbNextParse"},
+	{"issue date in the future", "tcbFuture"},
+	{"TCB info expired", "tcbExpired"},
+	{"invalid TCB evaluation data number", "tcbEvalNum"},
+	{"FMSPC is not whitelisted", "tcbWhitelist"},
+	{"FMSPC is blacklisted", "tcbBlacklist"},
+	{"malformed FMSPC", "fmspcMalformed"},
+	{"FMSPC: mismatch", "fmspcMismatch"},
+	{"TDX module TCB level not supported", "tdxModuleLevel"},
+	{"TDX module not supported", "tdxModuleUnsupported"},
+	{"missing TDX SVN components", "tdxNoSvn"},
+	{"missing TCB status", "levelNoStatus"},
+	{"TCB level not supported", "levelNone"},
+	{"QE TCB is not up to date", "tdxModuleStatus"},
+	{"platform TCB is not up to date", "levelStatus"},
+}
+
 // facts are everything the spec predicates need, re-evaluated by the harness.
 type facts struct {
 	line      string
@@ -832,6 +1057,7 @@ type facts struct {
 	ti        tiFacts
 	qi        qiFacts
 	pckFmspc  []byte
+	pckInfo   *pcs.PCKInfo
 	pckPceID  []byte
 	allLinks  bool // every signature / chain / hash link re-evaluated true
 	linkFails []string
@@ -905,6 +1131,7 @@ func modelLine(c *Case, o *implOut, withRaw bool) (f facts) {
 				case err == nil:
 					exts[0] = fmt.Sprintf("ok/%s/%s/%d", hex.EncodeToString(info.FMSPC), ints32(info.TCBCompSVN), info.PCESVN)
 					f.pckFmspc = info.FMSPC
+					f.pckInfo = info
 				case has(err.Error(), "missing FMSPC field"):
 					exts[0] = "ok/~/-/0"
 				default:
@@ -986,6 +1213,22 @@ func modelLine(c *Case, o *implOut, withRaw bool) (f facts) {
 		f.qi = qeIdFacts(c.QeBody)
 		add("ti", f.ti.enc)
 		add("qi", f.qi.enc)
+		if lv, mt, vt, ok := levelFacts(&f, p); ok {
+			add("lv", lv)
+			add("mt", mt)
+			add("vt", vt)
+		}
+		if dq, dt := directFacts(c, &f, p); true {
+			if dq != "" {
+				add("dq", dq)
+			}
+			if dt != "" {
+				add("dt", dt)
+			}
+		}
+	}
+	if o.ood != "" {
+		add("ood", o.ood)
 	}
 	if withRaw {
 		add("raw", hx(c.Quote))
@@ -1004,6 +1247,35 @@ func modelLine(c *Case, o *implOut, withRaw bool) (f facts) {
 		}
 		add("allowed", strings.Join(ids, ";"))
 		add("implatt", o.att)
+		{
+			// SGXConstraints.ValidateBasic of the descriptor's constraints: TDX feature x feature version x structure version
+			vb := make([]byte, 0, 12)
+			for _, tdxOn := range []bool{false, true} {
+				for _, f261 := range []bool{false, true} {
+					for _, v := range []uint16{0, 1, 2} {
+						cfg, sc := registrationInputs(c)
+						cfg.SGX.TDX = tdxOn
+						sc.Versioned = cbor.NewVersioned(v)
+						if sc.ValidateBasic(cfg, f261) == nil {
+							vb = append(vb, '1')
+						} else {
+							vb = append(vb, '0')
+						}
+					}
+				}
+			}
+			add("vb", string(vb))
+		}
+		if c.SAtt || len(c.NodeID) > 0 {
+			add("satt", b01(c.SAtt))
+			add("sah", strconv.FormatUint(c.SaHeight, 10))
+			add("nowh", strconv.FormatUint(c.NowHeight, 10))
+			add("scage", strconv.FormatUint(c.ScMaxAge, 10))
+			add("defage", strconv.FormatUint(c.DefMaxAge, 10))
+			add("rek", hx(c.Rek))
+			add("nid", hx(c.NodeID))
+			add("vsa", b01(attSigVerdict(c, p.BodyKind, p.BodyRaw)))
+		}
 		if c.Reg != "" {
 			_, sc := registrationInputs(c)
 			rp := "set"
@@ -1073,6 +1345,19 @@ func specCheck(c *Case, o *implOut, f *facts) (sig, detail string) {
 		}
 		if !found {
 			return "attestation-accepted-wrong-identity", "verified enclave identity is not among the allowed ones"
+		}
+		if c.SAtt {
+			// signed attestations: the RAK signed (signed report data, this node, this height, REK), and the height is fresh
+			if !attSigVerdict(c, f.parts.BodyKind, f.parts.BodyRaw) {
+				return "attestation-accepted-unsigned", "signed attestations are required, but the RAK signature does not cover (report data, node id, attestation height, REK)"
+			}
+			eff := c.ScMaxAge
+			if eff == 0 {
+				eff = c.DefMaxAge
+			}
+			if c.SaHeight > c.NowHeight || c.NowHeight-c.SaHeight > eff {
+				return "attestation-accepted-not-fresh", fmt.Sprintf("attestation height %d accepted at height %d with maximum age %d", c.SaHeight, c.NowHeight, eff)
+			}
 		}
 	}
 	// (1) The result is the one of a genuine recorded quote whose header and body are carried.
@@ -1147,6 +1432,11 @@ func specCheck(c *Case, o *implOut, f *facts) (sig, detail string) {
 	if f.parts.TeeType == uint32(pcs.TeeTypeTDX) && pol.TDX == nil {
 		return "accepted-tdx-not-allowed", "TDX quote accepted without TDX policy"
 	}
+	// (4b) TCB status: the platform satisfies every component bound of a level of the signed TCB
+	// info whose status is allowed, and of no earlier level; the same for the TDX module and the QE.
+	if sig, d := specTcbStatus(c, f); sig != "" {
+		return sig, d
+	}
 	// K2: the black list read as a list of platforms (decoded FMSPC), not of strings.
 	if fm, err := hex.DecodeString(f.ti.info.FMSPC); err == nil {
 		for _, b := range pol.FMSPCBlacklist {
@@ -1170,6 +1460,134 @@ func specCheck(c *Case, o *implOut, f *facts) (sig, detail string) {
 	// K1: the TCB info is for the PCE of the quote's PCK certificate.
 	if pce, err := hex.DecodeString(f.ti.info.PCEID); err != nil || len(f.pckPceID) == 0 || !bytes.Equal(pce, f.pckPceID) {
 		return "foreign-collateral-pceid-accepted", fmt.Sprintf("accepted although the TCB info is for pceId %q and the PCK certificate's PCE-ID is %X", f.ti.info.PCEID, f.pckPceID)
+	}
+	return "", ""
+}
+
+// levelSatisfied is Intel's TCB-level rule stated on index sets (no loop exits, no offsets):
+// every SGX component SVN and the PCESVN of the PCK certificate are at least the level's; for TDX
+// so is every TEE TCB SVN of the TD report, where indexes 0 and 1 (the TDX module's SVN and major
+// version) are exempt exactly when the module version (index 1) is not 0.
+func levelSatisfied(l *pcs.TCBLevel, sgxSvn [16]int32, tdx *[16]byte, pce uint16) (bool, string) {
+	for i := 0; i < 16; i++ {
+		if sgxSvn[i] < l.TCB.SGXComponents[i].SVN {
+			return false, fmt.Sprintf("SGX component %d: platform %d < level %d", i, sgxSvn[i], l.TCB.SGXComponents[i].SVN)
+		}
+	}
+	if pce < l.TCB.PCESVN {
+		return false, fmt.Sprintf("PCESVN: platform %d < level %d", pce, l.TCB.PCESVN)
+	}
+	if tdx != nil {
+		for i := 0; i < 16; i++ {
+			compared := tdx[1] == 0 || i >= 2
+			if compared && int32(tdx[i]) < l.TCB.TDXComponents[i].SVN {
+				return false, fmt.Sprintf("TEE TCB SVN %d: platform %d < level %d (TDX module version %d)", i, tdx[i], l.TCB.TDXComponents[i].SVN, tdx[1])
+			}
+		}
+	}
+	return true, ""
+}
+
+func platformStatusAllowed(st pcs.TCBStatus, lax bool) bool {
+	switch st {
+	case pcs.StatusUpToDate, pcs.StatusSWHardeningNeeded:
+		return true
+	case pcs.StatusOutOfDate, pcs.StatusConfigurationNeeded, pcs.StatusOutOfDateConfigurationNeeded:
+		return lax
+	}
+	return false
+}
+
+func firstEnclaveLevel(l []pcs.EnclaveTCBLevel, isvsvn uint16) *pcs.EnclaveTCBLevel {
+	for i := range l {
+		if l[i].TCB.ISVSVN <= isvsvn {
+			return &l[i]
+		}
+	}
+	return nil
+}
+
+// specTcbStatus: an accepted quote's platform, TDX module and quoting enclave each reach a level
+// with an allowed status in the signed collateral.
+func specTcbStatus(c *Case, f *facts) (string, string) {
+	if f.pckInfo == nil {
+		return "accepted-without-pck-info", "accepted although the PCK certificate's SGX extensions do not decode"
+	}
+	tdx, ok := tdxSvnOf(f.parts)
+	if !ok {
+		return "accepted-mismatched-body", "TDX quote without a TD report accepted"
+	}
+	ti := &f.ti.info
+	var sel *pcs.TCBLevel
+	why := ""
+	for i := range ti.TCBLevels {
+		sat, w := levelSatisfied(&ti.TCBLevels[i], f.pckInfo.TCBCompSVN, tdx, f.pckInfo.PCESVN)
+		if sat {
+			sel = &ti.TCBLevels[i]
+			break
+		}
+		why += fmt.Sprintf(" level %d (%s): %s;", i, ti.TCBLevels[i].Status, w)
+	}
+	if sel == nil {
+		return "accepted-disallowed-tcb-status", "accepted although the platform reaches no TCB level of the signed TCB info:" + why
+	}
+	if !platformStatusAllowed(sel.Status, c.Lax) {
+		return "accepted-disallowed-tcb-status", fmt.Sprintf("accepted although the first TCB level the platform reaches has status %q (lax=%v); levels not reached:%s", sel.Status.String(), c.Lax, why)
+	}
+	if tdx != nil && tdx[1] >= 1 {
+		var mod *pcs.TDXModuleIdentity
+		want := fmt.Sprintf("TDX_%02d", tdx[1])
+		for i := range ti.TDXModuleIdentities {
+			if ti.TDXModuleIdentities[i].ID == want {
+				mod = &ti.TDXModuleIdentities[i]
+				break
+			}
+		}
+		if mod == nil {
+			return "accepted-disallowed-tdx-module-status", "accepted although the signed TCB info has no TDX module identity " + want
+		}
+		ml := firstEnclaveLevel(mod.TCBLevels, uint16(tdx[0]))
+		if ml == nil || ml.Status != pcs.StatusUpToDate {
+			return "accepted-disallowed-tdx-module-status", fmt.Sprintf("accepted although TDX module %s with SVN %d is not UpToDate in the signed TCB info", want, tdx[0])
+		}
+	}
+	qer := f.parts.QEReportRaw
+	if len(qer) != 384 {
+		return "accepted-short-qe-report", "QE report is not 384 bytes"
+	}
+	qi := &f.qi.info
+	ql := firstEnclaveLevel(qi.TCBLevels, uint16(qer[258])|uint16(qer[259])<<8)
+	if ql == nil || ql.Status != pcs.StatusUpToDate {
+		return "accepted-disallowed-qe-status", "accepted although the quoting enclave's ISVSVN reaches no UpToDate level of the signed QE identity"
+	}
+	// QE identity: MRSIGNER, ISVPRODID and the two masked comparisons, bit by bit.
+	if ms, err := hex.DecodeString(qi.MRSIGNER); err != nil || !bytes.Equal(ms, qer[128:160]) {
+		return "accepted-foreign-qe-identity", "QE report MRSIGNER is not the QE identity's"
+	}
+	if qi.ISVProdID != uint16(qer[256])|uint16(qer[257])<<8 {
+		return "accepted-foreign-qe-identity", "QE report ISVPRODID is not the QE identity's"
+	}
+	maskedOK := func(rep []byte, exp, mask string) bool {
+		e, err1 := hex.DecodeString(exp)
+		m, err2 := hex.DecodeString(mask)
+		if err1 != nil || err2 != nil || len(e) != len(rep) || len(m) != len(rep) {
+			return false
+		}
+		for i := range rep {
+			for b := 0; b < 8; b++ {
+				mb, eb, rb := m[i]>>b&1, e[i]>>b&1, rep[i]>>b&1
+				if (mb == 1 && rb != eb) || (mb == 0 && eb != 0) {
+					return false
+				}
+			}
+		}
+		return true
+	}
+	if !maskedOK(qer[16:20], qi.MiscSelect, qi.MiscSelectMask) {
+		return "accepted-foreign-qe-identity", "QE report MISCSELECT does not match the QE identity under its mask"
+	}
+	if !maskedOK(qer[48:64], qi.Attributes, qi.AttributesMask) {
+		return "accepted-foreign-qe-identity", "QE report ATTRIBUTES do not match the QE identity under its mask"
 	}
 	return "", ""
 }
@@ -1500,6 +1918,15 @@ func (rn *runner) flush() {
 			o := rn.impls[i]
 			kind, sig := "divergence", "model-mismatch"
 			switch {
+			case has(a, "direct-qe") || has(a, "direct-tcbinfo"):
+				// QEIdentity.validate/verify or TCBInfo.validate/validateFMSPC/validateTCBLevel, called directly
+				sig = "direct-function-differs-from-model:" + strings.Fields(a)[1]
+			case has(a, "tcblevel") || has(a, "tcbmatches") || has(a, "tcbvalidate") || has(a, "tcbstatus"):
+				// the real getTCBLevel / matches / validateTCBLevel / error status against the model
+				sig = map[bool]string{true: "tcb-level-selection-differs-from-model", false: "tcb-status-differs-from-model"}[!has(a, "tcbstatus")]
+				if strings.HasPrefix(o.res, "accept:") {
+					kind = "spec"
+				}
 			case has(a, "attestation"):
 				sig = "attestation-mismatch:" + strings.TrimPrefix(strings.Join(strings.Fields(a)[1:], "/"), "attestation/")
 				if o.att == "ok" {
@@ -1535,6 +1962,9 @@ func main() {
 	combos := flag.Int("combo", 1500, "random combinations of mutation, time and policy")
 	emit := flag.String("emit", "", "write one accepted mutant per generator class into this directory")
 	synth := flag.Int("synth", 0, "cases on synthetic platforms (harness-owned root of trust)")
+	gridTcb := flag.Int("grid", 0, "synthetic platforms: TCB level selection grid (SVN index x below/equal/above x levels x statuses x TDX module identities)")
+	gridQe := flag.Int("qegrid", 0, "synthetic platforms: QE identity grid (masks bit by bit, MRSIGNER, ISVPRODID, QE ISVSVN levels)")
+	gridTime := flag.Int("timegrid", 0, "synthetic platforms: validity windows / certificate validity / evaluation numbers at their boundaries")
 	flag.Parse()
 
 	res := hlib.NewResult("pcsdrv", *seed)
@@ -1593,6 +2023,8 @@ func main() {
 	generate(rn, rng, *bits, *multis, *combos)
 	rn.flush()
 	generateSynth(rn, rng.Fork(), *synth)
+	rn.flush()
+	generateGrids(rn, rng.Fork(), *gridTcb, *gridQe, *gridTime)
 	rn.flush()
 	res.Write(*out)
 }
